@@ -134,7 +134,17 @@ pub fn history_json(h: &[usize]) -> Value {
     json!({"tier": "B", "workers": WORKERS, "history": h.iter().map(|l| LETTERS[*l]).collect::<Vec<_>>()})
 }
 
+thread_local! {
+    /// client behaviours that already fail on their own: longer histories containing one are explained by it
+    static KILLERS: std::cell::RefCell<std::collections::HashMap<usize, (String, String)>> = Default::default();
+}
+
 pub fn check(h: &[usize], repeats: usize) -> (String, Vec<(String, String)>) {
+    if h.len() > 1 {
+        if let Some(f) = KILLERS.with(|k| h.iter().find_map(|l| k.borrow().get(l).cloned())) {
+            return ("lost".into(), vec![(f.0, format!("(not run: contains a behaviour that already fails on its own) {}", f.1))]);
+        }
+    }
     let mut fails: Vec<(String, String)> = Vec::new();
     let mut names: Vec<&str> = h.iter().map(|l| LETTERS[*l]).filter(|l| *l != "valid").collect();
     names.sort();
@@ -180,10 +190,14 @@ pub fn check(h: &[usize], repeats: usize) -> (String, Vec<(String, String)>) {
             }
             let (_, single) = check(&[l], repeats.max(10));
             if !single.is_empty() {
+                KILLERS.with(|k| k.borrow_mut().insert(l, single[0].clone()));
                 fails = single;
                 break;
             }
         }
+    }
+    if !fails.is_empty() && h.len() == 1 {
+        KILLERS.with(|k| k.borrow_mut().insert(h[0], fails[0].clone()));
     }
     (if fails.is_empty() { "serving".into() } else { "lost".into() }, fails)
 }
@@ -196,6 +210,9 @@ pub fn run(ctx: &mut Ctx) {
     for len in 0..=maxlen {
         enumerate::sequences_exact(LETTERS.len(), len, &mut |idx| {
             let j = history_json(idx);
+            if ctx.verdict_established(3) {
+                return;
+            }
             if !ctx.begin(j.to_string().as_bytes()) {
                 return;
             }
